@@ -19,7 +19,7 @@ func dbgEM(c *Ctx, r *Report) {
 		e := m.Entries[k]
 		fmt.Printf("== %s: %d outcomes, undecided %v\n", k, len(e.Outcomes), e.Undecided)
 		for _, o := range e.Outcomes {
-			fmt.Printf("   d%s L%s B%+d need=%d jumps=%d scopes=%d dead=%v pend=%s last=%s trace=%v ev=%v\n", signed(o.D), signed(o.L), o.B, o.Need, o.Jumps, o.Scopes, o.Dead, o.Pending, o.LastOp, o.Trace, o.Events)
+			fmt.Printf("   d%s L%s B%+d need=%d jumps=%d scopes=%d dead=%v pend=%s last=%s trace=%v ev=%v words=%q\n", signed(o.D), signed(o.L), o.B, o.Need, o.Jumps, o.Scopes, o.Dead, o.Pending, o.LastOp, o.Trace, o.Events, o.Words)
 			for _, p := range o.Problems {
 				fmt.Println("      PROBLEM", p)
 			}
@@ -254,6 +254,28 @@ func dbgREFL(c *Ctx, r *Report) {
 			sort.Strings(fs)
 			fmt.Printf("    facts %v\n    failures %v pending %v stores %v marks %v problems %v nilAt %d\n", fs, p.Failures, p.Pending, p.TableStores, p.BodyMarks, p.Problems, p.NilBindingAt)
 		}
+	}
+	r.ok("dbg", "x", "")
+}
+
+func init() { register("DBGCLI", "other", dbgCLI) }
+
+func dbgCLI(c *Ctx, r *Report) {
+	_, fd := c.findIn(c.Cmd, "parseArgs")
+	if fd == nil {
+		fmt.Println("no parseArgs")
+		return
+	}
+	for _, w := range []string{"-d", "--disasm", "-t", "--stats", "--bdump", "--bdump=F", "--bdumpx", "--bload=G", "-h", "--", "-dt", "-d1", "-x", "--zzz", "-", "file.bcl", ""} {
+		outs, und := c.argsOutcomes(fd, w)
+		fmt.Printf("%-10q", w)
+		for _, o := range outs {
+			fmt.Printf(" | %s", o)
+		}
+		if len(und) > 0 {
+			fmt.Printf(" UNDECIDED %v", und)
+		}
+		fmt.Println()
 	}
 	r.ok("dbg", "x", "")
 }
